@@ -1,3 +1,4 @@
+import Iauthd.Proto.Stray04
 import Iauthd.Proto.Props
 import Iauthd.Proto.RenderHex
 import Iauthd.Proto.RefInvH
@@ -78,6 +79,20 @@ theorem C04_slots_alive (hasXq hasClass : Bool) (hdep : hasClass = true → hasX
 theorem C04_reload_slots (s : State) (h : Refd s) (live new : Config) (first : Bool) :
     Refd (applyConfig s live new first).1 :=
   applyConfig_ref s live new first h
+
+/-- a stray reply line is a step that changes nothing and writes nothing: the line is `-1 X …` /
+    `-1 x …` and either its routing tag does not validate (malformed, out of range, unknown id, stale
+    serial: `C04_tag_exact` says what validating means) or the service it names is not one the
+    addressed instance awaits -/
+theorem C04_stray_line (s : State) (hi : Inv s) (raw : Bytes) (h : StrayLine s raw) : stepLine s raw = .ok (s, []) :=
+  stepLine_stray s hi raw h
+
+/-- **C04, histories**: the history with a stray line inserted and the history without it are
+    processed alike - same final state, same output - wherever the line is inserted -/
+theorem C04_history_insert (s sa : State) (oa : List Bytes) (a rest : List Bytes) (ln : Bytes)
+    (ha : stepLines s a = .ok (sa, oa)) (hia : Inv sa) (hne : ln.isEmpty = false) (hs : StrayLine sa (cstr ln)) :
+    stepLines s (a ++ ln :: rest) = stepLines s (a ++ rest) :=
+  stepLines_insert_stray s sa oa a rest ln ha hia hne hs
 
 /-- the reader of the output (the Spec's `tagOf`) and the daemon (`parseTag`) read every routing
     tag alike, well-formed or not -/
